@@ -327,7 +327,8 @@ def _loss_tensors(case):
         hyp = hyp.permute(2, 0, 1).contiguous()
         ref = (ref.permute(2, 0, 1) if case["ref3d"] else ref.t()).contiguous()
     lp = torch.tensor(case["log_probs"], dtype=torch.float32).reshape(N, M)
-    return lp, ref, hyp
+    lay = G.LAYOUTS[(3 * R + 5 * H + N + M) % len(G.LAYOUTS)] if not case.get("layout") else case["layout"]
+    return G.relayout(lp, lay), G.relayout(ref, lay), G.relayout(hyp, lay)
 
 
 def _call_loss(mon, case, lp, ref, hyp):
